@@ -22,6 +22,8 @@ EXTRA_SEEDS = [
     'import m1\npub fn f(x) { m1.f(x) }\npub fn g(y) { m1.h(y) }\npub fn h(z) { m1.g(z) }\nfn top() { m1.f(1) }\n',
     # arities that do not agree: more patterns than subjects (and the surplus binding used), fewer, surplus / missing arguments
     'fn f(x) { case x { 1, y -> y _ -> x } }\nfn g(x, z) { case x, z { 1 -> x a, b, c -> c } }\nfn h(a) { f(a, a) + g(a) + h() }\nfn i(t) { let #(p, q) = #(t, t, t) p }\n',
+    # documentation comments in front of variants and labelled fields (the named things there must still be exactly one token)
+    'pub type R {\n  /// first é\n  R(\n    /// the name\n    name: String,\n    /// how many 💣\n    count: Int,\n  )\n  /// none\n  N\n}\n/// doc\npub fn f(r: R) { r.name }\nfn g() { R(name: "x", count: 1) }\n',
     # non-ASCII text in comments, strings and broken places
     '//// модуль 日本語\n/// док 💣\npub fn h() { "こんにちは" <> "é" } // конец\nconst k = "กขค"\nfn i() { let s = "💣💣" s }\n',
     # mutual recursion / recursion groups (the functions of one group are inferred together)
@@ -78,6 +80,9 @@ def seeds(out, tier, seed, n_gen):
     return res
 
 
+TAILS = ["// é", "// …", "// 💣", "\"ß"]
+
+
 def extra_truncations():
     """every lexeme-level truncation of every hand-written seed (end-of-input errors in non-ASCII and odd programs)"""
     liblex = lex(LIB)
@@ -85,7 +90,11 @@ def extra_truncations():
     for t in EXTRA_SEEDS:
         ms = [lex(x) for x in t] if isinstance(t, tuple) else [lex(t), liblex]
         for i in range(1, len(ms[0])):
-            res.append({"files": [{"name": "m1", "lex": ms[0][:i]}] + [{"name": f"m{k + 2}", "lex": m} for k, m in enumerate(ms[1:])], "steps": 1})
+            rest = [{"name": f"m{k + 2}", "lex": m} for k, m in enumerate(ms[1:])]
+            res.append({"files": [{"name": "m1", "lex": ms[0][:i]}] + rest, "steps": 1})
+            # the same truncation with the file ending in a multi-byte character (a comment without its line break)
+            if i % 3 == 0:
+                res.append({"files": [{"name": "m1", "lex": ms[0][:i] + [TAILS[(i // 3) % len(TAILS)]]}] + rest, "steps": 1})
     return res
 
 
